@@ -810,6 +810,10 @@ class Ctx:
         self.counter = itertools.count()
         self.solver = z3.Solver()
         self.solver.set("timeout", Z3_TIMEOUT_MS)
+        # light solver holding only the pure-integer hypotheses (shapes, indices): used for the
+        # feasibility pruning of index-position case splits, where the real-valued facts are irrelevant
+        self.int_solver = z3.Solver()
+        self.int_solver.set("timeout", 2000)
         self._decide_cache = {}
         self.uf_apps = {}
         self.divisors = []
@@ -839,6 +843,8 @@ class Ctx:
             return
         self.assumptions.append(z)
         self.solver.add(z)
+        if _int_only(z):
+            self.int_solver.add(z)
         self._decide_cache.clear()
 
     def assume_rewrite(self, lhs, rhs, why=""):
@@ -848,6 +854,9 @@ class Ctx:
         rz = to_z3_real(rhs.re if isinstance(rhs, SymNum) else rhs)
         self.assume(lz == rz, why)
         self.rewrites.append((lz, rz))
+        ls = _simp(lz)
+        if ls.get_id() != lz.get_id():
+            self.rewrites.append((ls, rz))  # goals are simplified before rewriting
 
     def note_division(self, den):
         self.divisors.append(den)
@@ -932,6 +941,8 @@ class Ctx:
             c = z if res else z3.Not(z)
             self.pathcond.append(c)
             self.solver.add(c)
+            if _int_only(c):
+                self.int_solver.add(c)
             self._decide_cache.clear()
         self._decide_cache[key] = (z, res)
         return res
@@ -1032,6 +1043,56 @@ class Ctx:
         self.solver.set("timeout", Z3_TIMEOUT_MS)
         return r, model, smt2
 
+    def _z3_check_long(self, hyps, negated_goal, timeout_ms):
+        """Long z3 check with a HARD time limit: z3 can enter non-interruptible nonlinear routines, so
+        the check runs in a forked child that is killed at the deadline.  The child reports only the
+        verdict; a `sat` verdict is reproduced in-process (short, it just succeeded) to obtain the model."""
+        import select
+
+        self.solver.push()
+        for h in hyps:
+            self.solver.add(h)
+        self.solver.add(negated_goal)
+        smt2 = None
+        verdict = "unknown"
+        try:
+            rfd, wfd = os.pipe()
+            pid = os.fork()
+            if pid == 0:  # child
+                try:
+                    os.close(rfd)
+                    self.solver.set("timeout", timeout_ms)
+                    r = self.solver.check()
+                    os.write(wfd, str(r).encode())
+                finally:
+                    os._exit(0)
+            os.close(wfd)
+            ready, _, _ = select.select([rfd], [], [], timeout_ms / 1000.0 + 5.0)
+            if ready:
+                verdict = os.read(rfd, 32).decode() or "unknown"
+            else:
+                try:
+                    os.kill(pid, 9)
+                except OSError:
+                    pass
+            os.close(rfd)
+            try:
+                os.waitpid(pid, 0)
+            except OSError:
+                pass
+            if verdict not in ("sat", "unsat"):
+                smt2 = self.solver.to_smt2()
+        finally:
+            self.solver.pop()
+        if verdict == "unsat":
+            return z3.unsat, None, None
+        if verdict == "sat":
+            r, model, _ = self._z3_check(hyps, negated_goal, timeout_ms)
+            if r == z3.sat:
+                return r, model, None
+            return z3.unknown, None, smt2 or ""
+        return z3.unknown, None, smt2
+
     def _discharge(self, g, hyps):
         """-> (status, backend, model, detail)"""
         from . import ringnf
@@ -1076,11 +1137,11 @@ class Ctx:
         # case split on if-then-else conditions (index position classes), ring normal form at the leaves
         if _has_ite(g):
             self._split_budget = ITE_SPLIT_LEAVES
-            self._split_deadline = time.time() + ITE_SPLIT_SECONDS
+            self._split_deadline = time.process_time() + ITE_SPLIT_SECONDS  # CPU time: verdicts must not flip under load
             st = self._split(g, hyps, 0)
             if st is not None:
                 return st
-        r, model, smt2 = self._z3_check(hyps, ng, Z3_TIMEOUT_MS)
+        r, model, smt2 = self._z3_check_long(hyps, ng, Z3_TIMEOUT_MS)
         if r == z3.unsat:
             return "discharged", "z3", None, ""
         if r == z3.sat:
@@ -1197,7 +1258,7 @@ class Ctx:
 
     def _split(self, g, hyps, depth):
         """-> (status, backend, model, detail) or None (give up: caller falls back to plain z3)"""
-        if time.time() > self._split_deadline:
+        if time.process_time() > self._split_deadline:
             return None
         g = _simp(g)
         if z3.is_true(g):
@@ -1222,9 +1283,16 @@ class Ctx:
         c0 = conds[0]
         backend = "ite-split+simplify"
         for val, hc in ((True, c0), (False, z3.Not(c0))):
-            feas, _, _ = self._z3_check(hyps + [hc], z3.BoolVal(True), Z3_FAST_MS)
-            if feas == z3.unsat:
-                continue
+            if _int_only(hc):
+                self.int_solver.push()
+                for h in hyps:
+                    if _int_only(h):
+                        self.int_solver.add(h)
+                self.int_solver.add(hc)
+                feas = self.int_solver.check()
+                self.int_solver.pop()
+                if feas == z3.unsat:
+                    continue
             g2 = z3.substitute(g, (c0, z3.BoolVal(val)))
             st = self._split(g2, hyps + [hc], depth + 1)
             if st is None:
@@ -1252,6 +1320,32 @@ class Ctx:
         """Vacuity guard: the current point must be reachable (assumptions satisfiable)."""
         r = self.solver.check()
         self.session.record_cover(name, r != z3.unsat)
+
+
+_INT_ONLY_CACHE = {}
+
+
+def _int_only(e):
+    """True iff the formula mentions no real-sorted term (pure shape/index arithmetic)"""
+    k = e.get_id()
+    hit = _INT_ONLY_CACHE.get(k)
+    if hit is not None:
+        return hit[1]
+    ok = True
+    seen = set()
+    stack = [e]
+    while stack:
+        t = stack.pop()
+        i = t.get_id()
+        if i in seen:
+            continue
+        seen.add(i)
+        if z3.is_real(t) or z3.is_quantifier(t):
+            ok = False
+            break
+        stack.extend(t.children())
+    _INT_ONLY_CACHE[k] = (e, ok)
+    return ok
 
 
 def _has_ite(e):
